@@ -173,10 +173,10 @@ def desc_of(name):
     return CLASSES[CIDX[name]] if name in CIDX else ROOTS[RIDX[name]]
 
 
-def full_load_order(root):
+def full_load_order(root, load=None):
     """load order with the inline pseudo-tables placed after users and tags"""
     out, seen = [], set()
-    for t in root["load"]:
+    for t in (load if load is not None else root["load"]):
         out.append(t)
         seen.add(t)
         if {"User", "Tag"} <= seen and "Note" not in seen:
@@ -185,11 +185,20 @@ def full_load_order(root):
     return out
 
 
-def gen_schema_v() -> str:
-    """text of coq/Aoef/Schema.v"""
+def gen_schema_v(ex=None) -> str:
+    """text of coq/Aoef/Schema.v.  With an extraction `ex` (harness/aoef_extract.extract_all of the current source) the
+    written / read masks, the to_aoef steps and the re-registration orders are the EXTRACTED ones, so that the theorems
+    `schema_okb current T = true` are re-checked against what the code says now; field order and reference fields come
+    from the table (the extraction is compared with it: aoef_extract.differences)."""
+    wrm = rdm = None
+    if ex is not None:
+        from . import aoef_extract as _E
+
+        wrm, rdm = _E.masks(ex)
     L = []
     A = L.append
-    A("(* Aoef/Schema.v — GENERATED by harness/aoef.py (gen_schema_v) from the schema table there; do not edit.")
+    A("(* Aoef/Schema.v — GENERATED on every run by harness/aoef.py (gen_schema_v) from the schema table there and from the")
+    A("   extraction of /repo/src/soundevent/io/aoef/*.py by harness/aoef_extract.py (masks, steps, load orders); do not edit.")
     A("   One row per adapter: scalar fields written / read, reference fields (target class, cardinality) in the")
     A("   evaluation order of assemble_aoef; one row per collection adapter: conversion / snapshot steps in evaluation")
     A("   order and the re-registration order of to_soundevent (inline pseudo-tables placed after users and tags). *)")
@@ -213,17 +222,27 @@ def gen_schema_v() -> str:
         A("  end.")
         A("")
 
-    tbl("cur_wr", lambda c: "[" + "; ".join("true" for _ in c["scalars"]) + "]", "[]")
-    tbl("cur_rd", lambda c: "[" + "; ".join("true" for _ in c["scalars"]) + "]", "[]")
+    def mask_of(m):
+        def f(c):
+            bits = m.get(c["name"]) if m is not None else None
+            if bits is None:
+                bits = [True] * len(c["scalars"])
+            return "[" + "; ".join("true" if b else "false" for b in bits) + "]"
+        return f
+
+    tbl("cur_wr", mask_of(wrm), "[]")
+    tbl("cur_rd", mask_of(rdm), "[]")
     tbl("cur_kidcls", lambda c: "[" + "; ".join("c" + k[2] for k in c["kids"]) + "]", "[]")
     tbl("cur_kidcard", lambda c: "[" + "; ".join(k[3] for k in c["kids"]) + "]", "[]")
     A("Definition current : schema := Schema cur_wr cur_rd cur_kidcls cur_kidcard.")
     A("")
     for r in ROOTS:
         kidx = {k[0]: i for i, k in enumerate(r["kids"])}
+        er = ex["roots"][r["name"]] if ex is not None else None
+        steps = list(er["steps"]) if er is not None else list(r["steps"])
         # the inline objects are embedded where they are used: their pseudo-tables are "emitted" last
-        st = "; ".join(f"Conv {kidx[a]}" if k == "Conv" else f"Snap c{a}" for k, a in r["steps"] + [("Snap", t) for t in PSEUDO])
-        lo = "; ".join("c" + t for t in full_load_order(r))
+        st = "; ".join(f"Conv {kidx[a]}" if k == "Conv" else f"Snap c{a}" for k, a in steps + [("Snap", t) for t in PSEUDO])
+        lo = "; ".join("c" + t for t in full_load_order(r, er["load"] if er is not None else None))
         A(f"Definition root_{r['name']} : root_desc := Root c{r['name']} [{st}] [{lo}].")
     A("")
     A("Definition roots : list root_desc := [" + "; ".join("root_" + r["name"] for r in ROOTS) + "].")
